@@ -544,11 +544,40 @@ void bodyDecShared(int, void* a)
     A.digest = h;
 }
 
+// ---- big state ---------------------------------------------------------------------------------------------------------------
+// A decoder that holds MANY large reassemblies at once (300 endpoints x 65000 bytes, about 20 MB) while another decoder does the
+// same: whatever one instance may hold, it may hold it whatever the other instances of the process hold (explored at the level of
+// the explicit points only: the bodies are long).
+void bodyDecBig(int, void* a)
+{
+    Arg& A = *static_cast<Arg*>(a);
+    uint64_t h = 14;
+    Decoder d;
+    const int N = 300;
+    Bytes big = patt(65000, A.u);
+    for (int phase = 0; phase < 2; ++phase)
+    {
+        for (int i = 0; i < N; ++i)
+        {
+            ref::FrameHdr fh;
+            fh.device = (uint16_t) (0x0300 + i); fh.stream = (uint8_t) (A.u & 0x7F); fh.msgType = ref::MT_DATA; fh.seq = (uint16_t) (65535 + phase);
+            Bytes body = phase == 0 ? big : patt(16, A.u + (uint32_t) i);
+            Bytes f = ref::buildFrame(fh, {ref::mkMsg(0xFE, body, (uint8_t) ((phase == 0 ? 1 : 3) << 2), A.u + (uint32_t) i, A.u)});
+            auto pk = d.decode(f.data(), f.size());
+            h = mc::mix(h, pk.size());
+            for (auto& p : pk)
+                h = mc::mix(h, mc::mix(p->getPayloadLength(), p->getDeviceId()));
+        }
+        API_POINT();
+    }
+    A.digest = h;
+}
+
 using BodyFn = void (*)(int, void*);
 static void soloDigestsInChild(std::vector<Arg>& solo);
-constexpr int NKIND = 13;
-const char* kBodyName[NKIND] = {"enc", "dec", "tecmp", "status", "build", "deccont", "consume", "enccopy", "deccopy", "statuscopy", "encshared", "statusshared", "decshared"};
-BodyFn kBody[NKIND] = {bodyEnc, bodyDec, bodyTecmp, bodyStatus, bodyBuild, bodyDecCont, bodyConsume, bodyEncCopy, bodyDecCopy, bodyStatusCopy, bodyEncShared, bodyStatusShared, bodyDecShared};
+constexpr int NKIND = 14;
+const char* kBodyName[NKIND] = {"enc", "dec", "tecmp", "status", "build", "deccont", "consume", "enccopy", "deccopy", "statuscopy", "encshared", "statusshared", "decshared", "decbig"};
+BodyFn kBody[NKIND] = {bodyEnc, bodyDec, bodyTecmp, bodyStatus, bodyBuild, bodyDecCont, bodyConsume, bodyEncCopy, bodyDecCopy, bodyStatusCopy, bodyEncShared, bodyStatusShared, bodyDecShared, bodyDecBig};
 
 void prep(Arg& A)
 {
@@ -589,12 +618,12 @@ void reprep(std::vector<Arg>& args)
     {
         bool needShared = false;
         for (auto& a : args)
-            needShared = needShared || a.kind >= 10;
+            needShared = needShared || (a.kind >= 10 && a.kind <= 12);
         if (needShared)
         {
             buildSharedInputs();
             for (auto& a : args)
-                if (a.kind >= 10)
+                if (a.kind >= 10 && a.kind <= 12)
                 {
                     a.sharedPackets = &g_sharedPackets;
                     a.sharedFrames = &g_sharedFrames;
@@ -833,9 +862,12 @@ int main(int argc, char** argv)
         prep(args[i]);
     }
     soloDigestsInChild(solo);   // alone, in another process, before any exploration
-    bool needReprep = false;
+    bool needReprep = false, monitorOff = false;
     for (int k : kinds)
-        needReprep = needReprep || k >= 5;
+    {
+        needReprep = needReprep || (k >= 5 && k != 13);
+        monitorOff = monitorOff || k == 13;
+    }
     srt::init(n);
     std::vector<srt::Body> bodies;
     std::vector<void*> argp;
@@ -873,7 +905,7 @@ int main(int argc, char** argv)
         uint64_t oh = r.npoints;
         for (int i = 0; i < n; ++i)
             oh = mc::mix(oh, args[i].digest);
-        outcomes.insert(mc::mix(oh, r.nconflicts));
+        outcomes.insert(mc::mix(oh, monitorOff ? 0 : r.nconflicts));
         std::string cs = showSched(kinds, level, s);
         if (r.diverged)
         {
@@ -889,7 +921,10 @@ int main(int argc, char** argv)
                     viol[key] = cs + fmt(" :: thread %d (%s) produced digest %llx, alone it produces %llx", i, kBodyName[kinds[i]], (unsigned long long) args[i].digest,
                                          (unsigned long long) solo[i].digest);
             }
-        for (uint32_t c = 0; c < std::min<uint32_t>(r.nconflicts, 8); ++c)
+        // The confinement monitor knows nothing of the allocator: a block freed by one thread and handed out to the other is "touched
+        // by both". The big-state bodies turn over ~40 MB of large blocks per execution, far more than ASan's quarantine keeps apart,
+        // so for them the monitor is off and the digests (results equal to the solo run) decide alone.
+        for (uint32_t c = 0; !monitorOff && c < std::min<uint32_t>(r.nconflicts, 8); ++c)
         {
             ++violations;
             Dl_info info;
